@@ -116,10 +116,10 @@ func (i *interpreter) global(g *ssa.Global) *value {
 
 // packages whose initialisers are never run (their globals read as zero values; functions are modelled).
 var noInitPkgs = map[string]bool{
-	"os": true, "syscall": true, "runtime": true, "time": true, "net": true, "reflect": true,
+	"os": true, "syscall": true, "runtime": true, "net": true, "reflect": true,
 	"sync": true, "internal/poll": true, "os/signal": true, "net/http": true, "log": true,
 	"internal/godebug": true, "crypto/rand": true, "math/rand": true, "math/rand/v2": true,
-	"internal/cpu": true, "crypto/sha256": true, "crypto/internal/fips140/sha256": true,
+	"internal/cpu": true, "crypto/internal/fips140/sha256": true,
 	"google.golang.org/grpc": true, "github.com/sirupsen/logrus": true, "github.com/containerd/log": true,
 	"github.com/prometheus/client_golang/prometheus": true, "github.com/docker/go-metrics": true,
 	"internal/testlog": true, "internal/syscall/unix": true, "golang.org/x/sys/unix": true,
@@ -165,6 +165,16 @@ func (i *interpreter) ensureInit(pkg *ssa.Package) {
 		}
 	}()
 	i.call(nil, token.NoPos, initFn, nil)
+	// registration-style initialisers: packages that register themselves into this one
+	for _, other := range initAlso[pkg.Pkg.Path()] {
+		if op := i.prog.ImportedPackage(other); op != nil {
+			i.ensureInit(op)
+		}
+	}
+}
+
+var initAlso = map[string][]string{
+	"crypto": {"crypto/sha256", "crypto/sha512"},
 }
 
 // runDefer runs a deferred call d. It always returns normally, but may set or clear fr.panic.
